@@ -78,7 +78,7 @@ MAX_REPLAY_LINES = 400
 PINNED = {
     "C03": ["type names: Arena, MarkedArena, Context", "type-name suffix `Builder` of the builder types that implement Drop",
             "std paths counted as primitive destructors: core::ptr::drop_in_place, alloc::alloc::dealloc, core::mem::ManuallyDrop::drop, core::mem::drop, alloc::boxed::Box::from_raw",
-            "vtable fn-pointer fields are matched to their closures by field name (any name, but the same on both sides)"],
+            "indirect calls `(x.f)(..)` are matched by field name to the closures / fn items that initialise field `f` (directly, or through constructor-function parameters); fn values with another destination are targets of every indirect call"],
     "C20": ["type names: Arena, Context, Metrics", "macro names: thread_local!, lazy_static!", "allow-list of pure std constructors (Model/CallGraphM.pureExternal)"],
     "C09": ["module src/metrics.rs", "Pacing and its seven field names", "Pacing::DEFAULT, Pacing::STOP_THE_WORLD", "impl Default for Pacing returning Self::DEFAULT / Pacing::DEFAULT",
             "type name Metrics; its parameterless constructor is found structurally and evaluated through Default derives/impls, Rc/Box/Cell wrappers and nested private structs (no field or helper-struct name pinned); "
@@ -197,13 +197,14 @@ PROP_EXTRA = {"C03": ["Proofs/CallGraphDefs"], "C20": ["Proofs/CallGraphDefs"],
               "C12": ["Model/CollectTy", "Generated/CollectTable", "Proofs/CollectLemmas",
                       "Model/MacroImpls", "Generated/MacroImpls", "Proofs/MacroImplsLemmas"],
               # Props/C16 also carries the template rule of the exported impl-generating macros
-              "C16": ["Model/MacroImpls", "Generated/MacroImpls", "Proofs/MacroImplsLemmas"]}
+              # (Proofs/MacroImplsLemmas renders template instantiations as Collect-table rows: needs CollectLemmas)
+              "C16": ["Proofs/CollectLemmas", "Model/MacroImpls", "Generated/MacroImpls", "Proofs/MacroImplsLemmas"]}
 PROP_ELAB = {
     "C09": ["Props/C09s"],
     "C10": ["Props/C09s"],
     "C12": ["Proofs/BrandFlowLemmas", "Props/C12s"],
     "C13": ["Proofs/WriteCapLemmas", "Proofs/WriteCapBridge", "Props/C13"],
-    "C16": ["Proofs/CollectLemmas", "Props/C16"],
+    "C16": ["Props/C16"],
     "C19": ["Props/C19s"],
     "C03": ["Props/C03s"],
     "C20": ["Props/C20s"],
@@ -240,6 +241,7 @@ EVAL = {
 open GcArena.MacroImpls GcArena.Generated
 #eval show IO Unit from do
   for s in violations macroImpls macroImplsUnclassified do IO.println ("VIOL " ++ s)
+  unless macroImpls.length ≥ 2 do IO.println s!"VIOL required: too few macro templates extracted ({macroImpls.length}/2)"
   IO.println s!"INFO rows={macroImpls.length} ok={macroImpls.all Template.ok}"
 ''',
     "C09": PACING_EVAL,
@@ -254,18 +256,27 @@ open GcArena.BrandFlow GcArena.Generated
 open GcArena.WriteCap GcArena.Generated
 #eval show IO Unit from do
   for s in derefWriteTable.violations do IO.println ("VIOL " ++ s)
+  let t := derefWriteTable
+  unless (t.ctors.length ≥ 4 && t.projs.length ≥ 10 && t.unlocks.length ≥ 3 && t.lockFns.length ≥ 30 && t.cells.length ≥ 2) do
+    IO.println s!"VIOL required: too few rows extracted (ctors={t.ctors.length}/4 projs={t.projs.length}/10 unlocks={t.unlocks.length}/3 lockFns={t.lockFns.length}/30 cells={t.cells.length}/2)"
   IO.println s!"INFO ok={derefWriteTable.ok} cellsStatic={derefWriteTable.cellsStatic} ctors={derefWriteTable.ctors.length} projs={derefWriteTable.projs.length} unlocks={derefWriteTable.unlocks.length} lockFns={derefWriteTable.lockFns.length} cells={derefWriteTable.cells.length}"
 ''',
     "C16": '''import GcArena.Generated.CollectTable
 open GcArena.CollectTy GcArena.Generated
 #eval show IO Unit from do
   for s in collectTable.violations do IO.println ("VIOL " ++ s)
+  let es := collectTable.entries
+  unless (es.length ≥ 50 && (es.filter (fun e => !e.traced.isEmpty)).length ≥ 30 && (es.filter (fun e => !e.ptrFields.isEmpty)).length ≥ 1 &&
+      (es.filter (fun e => e.selfStatic || !e.staticParams.isEmpty)).length ≥ 20) do
+    IO.println s!"VIOL required: too few rows extracted (entries={es.length}/50 tracing={(es.filter (fun e => !e.traced.isEmpty)).length}/30 pointer-holding={(es.filter (fun e => !e.ptrFields.isEmpty)).length}/1 static-bounded={(es.filter (fun e => e.selfStatic || !e.staticParams.isEmpty)).length}/20)"
   IO.println s!"INFO complete={collectTable.complete} untracedStatic={collectTable.untracedStatic} entries={collectTable.entries.length}"
 ''',
     "C19": '''import GcArena.Generated.SigTable
 open GcArena.Conjure GcArena.Generated
 #eval show IO Unit from do
   for s in sigTable.violations do IO.println ("VIOL " ++ s)
+  unless (sigTable.sigs.length ≥ 25 && (sigTable.sigs.filter (fun s => !s.isUnsafe)).length ≥ 15) do
+    IO.println s!"VIOL required: too few rows extracted (sigs={sigTable.sigs.length}/25 safe={(sigTable.sigs.filter (fun s => !s.isUnsafe)).length}/15)"
   IO.println s!"INFO ok={sigTable.ok} sigs={sigTable.sigs.length} safe={(sigTable.sigs.filter (fun s => !s.isUnsafe)).length}"
 ''',
     "C03": '''import GcArena.Proofs.CallGraphDefs
@@ -293,6 +304,9 @@ def members (s : Nat) : List Nat := (List.range fns.length).filter (fun i => s.t
     match fns[i]? with
     | some f => unless (!f.clientCallable && !f.isDropImpl && f.selfKind == .other) do IO.println s!"VIOL driver-part: {i} {f.name} is client-callable / a Drop impl / an Arena method"
     | none => pure ()
+  unless (fns.length ≥ 300 && count callbackRoots fns.length ≥ 150 && count cl fns.length ≥ count callbackRoots fns.length + 100 &&
+      count collectorClosure fns.length ≥ 2 && count destructive fns.length ≥ 3 && count builderDrops fns.length ≥ 1) do
+    IO.println s!"VIOL required: too little of the call graph extracted (fns={fns.length}/300 roots={count callbackRoots fns.length}/150 closure={count cl fns.length} reachDriver={count collectorClosure fns.length}/2 destructive={count destructive fns.length}/3 builderDrops={count builderDrops fns.length}/1)"
   unless markedArenaField == "&mut Arena" do IO.println s!"VIOL marked-arena-field: {markedArenaField}"
   if constructsMarkedArena.isEmpty then IO.println "VIOL marked-arena: no constructor found"
   for i in constructsMarkedArena do
@@ -309,6 +323,8 @@ open GcArena.CallGraphM GcArena.Generated.CallGraph GcArena.CallGraphDefs
     unless (s.tracingCallsite && !s.isMut) do IO.println s!"VIOL expanded-static: {s.module}::{s.name} : {s.ty} (mut={s.isMut})"
   for s in freshExternal do
     unless pureExternal s do IO.println ("VIOL fresh-external: " ++ s)
+  unless (rawFilesScanned ≥ 15 && rawItemsScanned ≥ 100 && expandedStatics.length ≥ 1 && freshExternal.length ≥ 3 && freshFns.length ≥ 2 && fns.length ≥ 300) do
+    IO.println s!"VIOL required: the scans covered too little (files={rawFilesScanned}/15 items={rawItemsScanned}/100 expandedStatics={expandedStatics.length}/1 freshExternal={freshExternal.length}/3 freshFns={freshFns.length}/2 fns={fns.length}/300)"
   unless count (maskWhere fns (fun f => f.tag == .contextNew)) fns.length ≥ 1 do IO.println "VIOL fresh-roots: no constructor of `Context` found"
   unless count (maskWhere fns (fun f => f.tag == .metricsNew)) fns.length ≥ 1 do IO.println "VIOL fresh-roots: no constructor of `Metrics` found"
   IO.println s!"INFO rawStatics={rawStatics.length} expandedStatics={expandedStatics.length} freshFns={freshFns.length} freshExternal={freshExternal.length}"
@@ -564,6 +580,9 @@ def _theorem_for(prop, v):
         return "GcArena.C09s.pacing_consts_classified"
     if prop == "C12":
         return "GcArena.C12s.no_collect_impl_hides_brand" if v.startswith("hidden:") else "GcArena.C12s.table_ok"
+    if v.startswith("required:"):
+        return {"C13": "GcArena.C13.required_write_rows", "C16": "GcArena.C16.required_collect_rows", "C19": "GcArena.C19s.required_sig_rows",
+                "C03": "GcArena.C03s.required_graph_rows", "C20": "GcArena.C20s.required_scan_coverage", "C12": "GcArena.C12s.required_collect_rows"}.get(prop, "required_*")
     if prop == "C13":
         return "GcArena.C13.cells_static" if v.startswith("cell:") else "GcArena.C13.table_ok"
     if prop == "C16":
